@@ -316,6 +316,17 @@ def run_listen(cfg, via, cfg_mode, ch, public_port=80):
                     viol.append(('listener-leaked', feat + '/after-%s' % (injected if isinstance(injected, str) else type(injected).__name__),
                                  'listen() failed (%s) but the local listener 127.0.0.1:%d is still open'
                                  % (rec.summary()[1] if rec.fires else 'pending', open_ports[0].port)))
+            if injected == 'rejected' and cfg['kind'] == 'fs' and not viol and impl.wire.lost_seq is None:
+                # the caller tries again: Tor never accepted the service, so it has to be asked again
+                n2 = len(sim.commands)
+                sim.hold_prefixes = []
+                rec2 = DRec(ep.listen(fac))
+                sim.pump()
+                again = [c for c in sim.commands[n2:] if c.startswith('SETCONF') and 'HiddenServiceDir' in c]
+                if not again:
+                    viol.append(('retry-after-rejection-did-not-ask-tor', feat,
+                                 'listen() failed because Tor rejected the SETCONF; a second listen() wrote %r and is %r'
+                                 % (sim.commands[n2:], rec2.summary()[:2])))
             errs = [e for e in w.errors() if 'dataReceived raised' not in e[0]]
             if cfg['kind'] == 'fs' and cfg.get('auth'):
                 # another service's HS_DESC event before Tor has written this service's private_key makes the id lookup raise
@@ -408,6 +419,8 @@ def invalid_cases():
     out.append(('stealth_auth+auth', ctor(hidden_service_dir='/tmp/x', stealth_auth=['a'], auth=AuthStealth(['b']))))
     out.append(('public_port-None', lambda r, c: TCPHiddenServiceEndpoint(r, c, None)))
     out.append(('public_port-not-a-number', lambda r, c: TCPHiddenServiceEndpoint(r, c, 'http')))
+    out.append(('version-5', ctor(version=5)))
+    out.append(('version-1+dir', ctor(version=1, hidden_service_dir='/tmp/x')))
     out.append(('v3+rsa-key', ctor(version=3, private_key='RSA1024:SOMEKEYBLOB==')))
     out.append(('v3+rsa-key+single-hop', ctor(version=3, private_key='RSA1024:SOMEKEYBLOB==', single_hop=True)))
     out.append(('key-with-LF', ctor(version=3, private_key='ED25519-V3:AB\nCD')))
